@@ -41,6 +41,34 @@ fn part_twins(bytes: &[u8], stats: &mut Stats) -> Verdict {
     r
 }
 
+/// One search through the real command handler: `go depth d` with the node budget set on the
+/// engine's timer (hook); the answer is the bestmove line the handler printed (its in-process
+/// image, recorded right beside the println).  Err = not exactly one bestmove line.
+fn go_through_handler(fl: &mut Flounder, depth: u8, budget: Option<u64>, cap_extra: u64) -> (Result<Option<String>, Vec<String>>, u64, u64) {
+    let it0 = {
+        let sr = fl.verif_searcher();
+        sr.verif_set_node_limit(budget);
+        sr.verif_set_hard_cap(Some(budget.unwrap_or(0) + cap_extra));
+        sr.verif.iterations_completed.get()
+    };
+    let _ = fl.verif_take_bestmove_lines();
+    fl.verif_handle_command(&format!("go depth {}", depth));
+    let lines = fl.verif_take_bestmove_lines();
+    let sr = fl.verif_searcher();
+    sr.verif_set_node_limit(None);
+    let its = sr.verif.iterations_completed.get() - it0;
+    let nodes = sr.verif_nodes();
+    let mv = if lines.len() == 1 {
+        match lines[0].split_whitespace().nth(1) {
+            Some("0000") | None => Ok(None),
+            Some(m) => Ok(Some(m.to_string())),
+        }
+    } else {
+        Err(lines)
+    };
+    (mv, nodes, its)
+}
+
 /// Twin positions: (command, position) with a legal en-passant capture or castling move, and the
 /// same placement and side to move without that right (both valid positions).
 fn gen_twins(s: &mut Src) -> Option<(String, Pos, String, Pos)> {
@@ -193,15 +221,9 @@ fn part_a(bytes: &[u8], stats: &mut Stats) -> Verdict {
                 // the extended game is sent below, once its moves have been chosen
                 Op::Play(_) | Op::Resume(_) => Ok(None),
                 Op::Search { depth, budget } => {
-                    let board = *fl.verif_board();
-                    let sr = fl.verif_searcher();
-                    sr.verif_set_node_limit(*budget);
-                    sr.verif_set_hard_cap(Some(budget.unwrap_or(0) + 400_000));
-                    let it0 = sr.verif.iterations_completed.get();
-                    let (_, mv) = sr.find_best_move(&board, *depth, None);
-                    sr.verif_set_node_limit(None);
-                    let its = sr.verif.iterations_completed.get() - it0;
-                    Ok(Some((mv.map(|m| m.to_algebraic()), sr.verif_nodes(), its)))
+                    let (mv, nodes, its) = go_through_handler(&mut fl, *depth, *budget, 400_000);
+                    let mv = mv.map_err(|_| ())?;
+                    Ok(Some((mv, nodes, its)))
                 }
             }
         }));
@@ -265,7 +287,9 @@ fn part_a(bytes: &[u8], stats: &mut Stats) -> Verdict {
         }
         let out = match res {
             Ok(Ok(x)) => x,
-            Ok(Err(())) => None,
+            Ok(Err(())) => {
+                return Err(Failure::new("not-exactly-one-bestmove-line", json!({"history": log})));
+            }
             Err(pn) => {
                 let msg = crate::panic_text(&pn);
                 if msg.contains("node hard cap") {
@@ -438,7 +462,7 @@ fn judge_script(lines: &[String], stats: &mut Stats) -> Verdict {
 pub fn run(tier: Tier, seed: u64, known: &Known) -> PropRun {
     let mut run = PropRun::new("exploration", RULE);
     run.assumptions = vec![
-        "handle_go_command prints 'bestmove <m>' / 'bestmove 0000' from exactly the Option<Move> that find_best_move returns (Layer A observes that value; Layer B observes the printed line)".into(),
+        "Layer A sends 'go depth d' through the real command handler and observes the in-process image of the bestmove line it prints (hook beside the println); Layer B observes the printed line of the real process".into(),
         "a node-count budget (hook) is the deterministic image of a wall-clock budget; Nodes(0) = movetime 0".into(),
         "Layer B: a go that does not answer within 25 s is inconclusive (exit 2), not a violation".into(),
     ];
@@ -485,19 +509,11 @@ fn replay_history(hist: &[Value], stats: &mut Stats) -> Verdict {
         let depth = item.get("search_depth").and_then(|x| x.as_u64()).unwrap_or(1) as u8;
         let budget = item.get("budget_nodes").and_then(|x| x.as_u64());
         let cur = script::ref_current(&lines).map_err(|e| Failure::new("harness-bad-replay-file", json!({"error": e})))?;
-        let r = std::panic::catch_unwind(std::panic::AssertUnwindSafe(|| {
-            let board = *fl.verif_board();
-            let sr = fl.verif_searcher();
-            sr.verif_set_node_limit(budget);
-            sr.verif_set_hard_cap(Some(budget.unwrap_or(0) + 5_000_000));
-            let it0 = sr.verif.iterations_completed.get();
-            let (_, mv) = sr.find_best_move(&board, depth, None);
-            sr.verif_set_node_limit(None);
-            (mv.map(|m| m.to_algebraic()), sr.verif.iterations_completed.get() - it0)
-        }));
+        let r = std::panic::catch_unwind(std::panic::AssertUnwindSafe(|| go_through_handler(&mut fl, depth, budget, 5_000_000)));
         stats.eval();
         let (mv, its) = match r {
-            Ok(x) => x,
+            Ok((Ok(mv), _, its)) => (mv, its),
+            Ok((Err(lines), _, _)) => return Err(Failure::new("not-exactly-one-bestmove-line", json!({"history": log, "bestmove_lines": lines}))),
             Err(pn) => return Err(Failure::new("command-panic", json!({"history": log, "panic": crate::panic_text(&pn)}))),
         };
         let legal: Vec<String> = cur.legal_moves().iter().map(|m| m.uci()).collect();
